@@ -145,7 +145,7 @@ class SymNum:
         if is_sym(o):
             if o == 0:
                 raise ZeroDivisionError("division by zero")
-            return self._mk(z3.ToReal(self.t) / z3.ToReal(o.t) if self.is_int() else self.t / o.t)
+            return SymRatio(self, o)
         if _is_inf(o):
             return 0.0
         if _is_nan(o):
@@ -279,4 +279,62 @@ class SymNum:
         return self
 
 
+class SymRatio:
+    """num/den with a symbolic, non-zero denominator, kept lazy: comparisons with a constant or another number are
+    decided by cross-multiplication after forking on the sign of the denominator, so queries stay linear."""
+    __slots__ = ("num", "den")
+
+    def __init__(self, num, den):
+        self.num, self.den = num, den
+
+    def __repr__(self):
+        return "<symratio>"
+
+    __str__ = __repr__
+
+    def __format__(self, spec):
+        return "<symratio>"
+
+    def _cmp(self, o, op_pos, op_neg):
+        if isinstance(o, SymRatio):
+            raise TypeError("ratio/ratio comparison unsupported")
+        if self.den > 0:
+            return op_pos(self.num, self.den * o)
+        return op_neg(self.num, self.den * o)
+
+    def __lt__(self, o):
+        return self._cmp(o, lambda a, b: a < b, lambda a, b: a > b)
+
+    def __le__(self, o):
+        return self._cmp(o, lambda a, b: a <= b, lambda a, b: a >= b)
+
+    def __gt__(self, o):
+        return self._cmp(o, lambda a, b: a > b, lambda a, b: a < b)
+
+    def __ge__(self, o):
+        return self._cmp(o, lambda a, b: a >= b, lambda a, b: a <= b)
+
+    def __eq__(self, o):
+        if isinstance(o, SymRatio):
+            raise TypeError("ratio/ratio comparison unsupported")
+        return self.num == self.den * o
+
+    def __ne__(self, o):
+        return not self.__eq__(o)
+
+    def __hash__(self):
+        return 0
+
+    def __mul__(self, o):
+        if isinstance(o, (int, float)) and not isinstance(o, bool):
+            return SymRatio(self.num * o, self.den)
+        raise TypeError("SymRatio arithmetic unsupported")
+
+    __rmul__ = __mul__
+
+    def __neg__(self):
+        return SymRatio(-self.num, self.den)
+
+
 numbers.Real.register(SymNum)
+numbers.Real.register(SymRatio)
